@@ -9,11 +9,12 @@
        no existing cable : index None -> scalar cable, lower 0 ; index i -> array cable, lower i
        existing cable    : not an array, or index None -> the net is added as a cable of its own
                            (MbSeparate; name clashes are handled by the caller)
-         index >  lower, index <  lower+len : pins of the new wire are MOVED to wires[index-lower]
-         index >  lower, index >= lower+len : create_wires(index-lower-len) empty wires, append
-         index <= lower : append the wire, create_wires(lower-index-1), lower := index,
+         index >= lower, index <  lower+len : pins of the new wire are MOVED to wires[index-lower]
+         index >= lower, index >= lower+len : create_wires(index-lower-len) empty wires, append
+         index <  lower : append the wire, create_wires(lower-index-1), lower := index,
                           wires := wires[len0:] + wires[:len0]
-       (create_wires(n) with n <= 0 creates nothing; for index = lower the code PREPENDS the wire.)
+       (repaired K11: the first test was index > lower, so a second net for the bit that is the
+        lower index was PREPENDED as a new wire; now it joins wire 0 like any bit given twice.)
    (2) outer pins: every x with port.pins[x] == inner_pin is written; inner pins: the
    for/continue/break loop of _output_port_ref_, whose result is the loop variable after the loop.
    No proofs in this file. *)
@@ -38,7 +39,7 @@ Definition mb_merge (c : cab) (index : N) (w : list P) : cab :=
   let lower := c_lower c in
   let ws := c_wires c in
   let len := N.of_nat (length ws) in
-  if (lower <? index)%N then
+  if (lower <=? index)%N then
     if (index <? lower + len)%N then
       let k := N.to_nat (index - lower) in
       mkcab lower (c_array c) (firstn k ws ++ (nth k ws [] ++ w) :: skipn (S k) ws)
